@@ -13,7 +13,7 @@ RULE = ('histories = every sequence of override / remove / add operations up to 
         'potable command line (-e/-r/-a, one value per occurrence and several values per occurrence), in lock-step with the reference: the '
         'same edits applied to the ordered text model, whose rendering is parsed/tabulated by the same implementation; observations: '
         'configuration-error vs success, parsed lists, output bytes, --list-items / --list-item-labels / --item-value')
-RULE += "; third file: embedding-only EAM model with an empty [Pair] header; values containing ':' then '=', placeholders, two lines, blanks around them, '' (empty); pin-then-override-the-variable sequences; sequences of 4-5 overrides over three items and of 2-4 same-valued overrides (three groupings); tuple / generator arguments; sections the listing must show once ([Table-Form : t2], [Pair:disabled], [Notes]); malformed items (no '=', no ':', unknown item for --item-value, stray '$'); the manual's options-first argument order (known finding F33); fourth file: an ADP model whose dipole / quadrupole entries are edited and listed"
+RULE += "; third file: embedding-only EAM model with an empty [Pair] header; values containing ':' then '=', placeholders, two lines, blanks around them, '' (empty); pin-then-override-the-variable sequences; sequences of 4-5 overrides over three items and of 2-4 same-valued overrides (three groupings); tuple / generator arguments; sections the listing must show once ([Table-Form : t2], [Pair:disabled], [Notes]); malformed items (no '=', no ':', unknown item for --item-value, stray '$'); the manual's options-first argument order (known finding F33); fourth file: an ADP model whose dipole / quadrupole entries are edited and listed; a variable whose placeholder is glued to other text, overridden with a blank-padded value"
 ASSUMPTIONS = [
     'ConfigParser(overrides=, additional=) applies the override list in order (value None = removal) and then the additions: the reference applies the edits in that order and is rejected at the first edit that hand editing could not perform',
     'command line: options of one kind are applied in the order typed, overrides and removals before additions; exact repetitions of one removal are outside the alphabet (the de-duplication of identical options is not specified)',
@@ -26,8 +26,9 @@ BOUNDS = {'quick': 'API histories to depth 3 over 46 operations (pair file) / 2 
 
 def pair_file():
     return Ini([['Tabulation', [['target', 'LAMMPS'], ['nr', '4'], ['cutoff', '2.0']]],
-                ['Pair', [['O-O', 'as.buck 1000.0 0.3 32.0'], ['U-O', 'cbuck ${Variables:A_uo} 0.35'], ['U-U', 'sum(as.bornmayer 850.0 0.35, tf)']]],
-                ['Variables', [['A_uo', '800.0'], ['note', 'fitted 2019']]],
+                ['Pair', [['O-O', 'as.buck 1000.0 0.3 32.0'], ['U-O', 'cbuck ${Variables:A_uo} 0.35'], ['U-U', 'sum(as.bornmayer 850.0 0.35, tf)'],
+                          ['Zr-O', 'as.buck 1${zeros}.0 0.3 32.0']]],            # (a placeholder glued to other text)
+                ['Variables', [['A_uo', '800.0'], ['note', 'fitted 2019'], ['zeros', '000']]],
                 ['Potential-Form', [['cbuck(r,A,rho)', 'A*exp(-r/rho) + 1.0/r']]],
                 ['Table-Form:tf', [['x', '0 1 2 3'], ['y', '3 2 1 0.5']]],
                 ['Species', [['O.charge', '-2.0']]],
@@ -64,7 +65,7 @@ FILES = {'pair': pair_file, 'eam': eam_file, 'eamnp': eam_nopair_file, 'adp': ad
 KEYS = {
     # values: one containing ':' and, later, '=' (a placeholder and a '>=' range); one equal to the current EXPANDED value of its item (pins it)
     'pair': [('Pair', 'O-O', ['as.lj 0.2 2.5', 'as.morse 1.8 2.0 0.6', '>0 as.buck 1000.0 0.3 ${Species:O.charge} >=1.5 as.zero']),
-             ('Pair', 'U - O', ['as.lj 0.3 2.2', 'cbuck 800.0 0.35']), ('Variables', 'A_uo', ['900.0']), ('Variables', 'note', ['']),       # (an empty value is a value, not a removal)
+             ('Pair', 'U - O', ['as.lj 0.3 2.2', 'cbuck 800.0 0.35']), ('Variables', 'A_uo', ['900.0']), ('Variables', 'zeros', [' 00 ']), ('Variables', 'note', ['']),       # (an empty value is a value, not a removal)
              ('Pair', 'Th-O', ['as.zbl 8 8\n>=0.8 as.buck 1000.0 0.3 32.0', 'as.lj 0.4 2.1']),       # (a value that spans two lines)
              ('Tabulation', 'nr', ['5']), ('Tabulation', 'dr', ['0.25']), ('Tabulation', 'target', [' LAMMPS ']),      # (blanks around a value, as in 'target :  LAMMPS ')
              ('Potential-Form', 'cbuck(r, A, rho)', ['A*exp(-r/rho)']),
@@ -335,12 +336,20 @@ def expanded_items(ref):
     for k, v in items:
         d[norm(k)] = v
 
-    def ex(v, depth=0):
+    def ex(v, depth=0, section='Variables'):
         def sub(m):
             key = norm('%s:%s' % (m.group(1), m.group(2)))
-            return ex(d[key], depth + 1) if key in d and depth < 5 else m.group(0)
-        return re.sub(r'\$\{([^}:]+):([^}]+)\}', sub, v)
-    return [(k, ex(v).strip()) for k, v in items]        # (a file's values are read without surrounding blanks)
+            return ex(d[key].strip(), depth + 1, m.group(1)) if key in d and depth < 5 else m.group(0)      # (a file's values are read without surrounding blanks)
+
+        def bare(m):
+            # ${NAME}: a key of the value's own section first, then [Variables] (configparser's look-up order)
+            for sec in (section, 'Variables'):
+                key = norm('%s:%s' % (sec, m.group(1)))
+                if key in d and depth < 5:
+                    return ex(d[key].strip(), depth + 1, sec)
+            return m.group(0)
+        return re.sub(r'\$\{([^}:]+)\}', bare, re.sub(r'\$\{([^}:]+):([^}]+)\}', sub, v))
+    return [(k, ex(v, 0, k.rsplit(':', 1)[0]).strip()) for k, v in items]        # (a file's values are read without surrounding blanks)
 
 
 def parse_items(stdout):
